@@ -9,4 +9,8 @@ LEVELS = {
   'text': 'Proof: for every message list and every delivery point, the lifecycle id of the delivered message is already in the reader-visible table with the message\'s ECU (C06_published_first, no side condition), via an inductive invariant over all detector states (C06_invariant). Correspondence: the harness looks the id up through a cloned evmap ReadHandle inside the outflow closure at each delivery.',
   'note': 'Trusted: Lean kernel; model tied by correspondence; evmap cross-thread visibility after refresh is evmap\'s contract; consumer pacing is irrelevant because publication happens-before the outflow call in the same thread (modelled as sequential).',
  },
+ 'C07': {
+  'text': 'Proof (listing): for every table the model of get_sorted_lifecycles_as_vec is a permutation of the table (each lifecycle once), can always be produced (total sort key), is ordered by start time when no resume exists, and never lists a resumed lifecycle before its origin (C07_listing_*). Table-vs-messages part: the executable statement Spec.C07 (ids listed once, every delivered id listed with its ECU, exact counts, no unreferenced entry, counts sum to the number of messages) is evaluated on the implementation\'s output of every generated stream, and model==impl is checked on the table; its Lean proof over the detector model is work in progress (see DESIGN.md).',
+  'note': 'Trusted: Lean kernel; model tied by correspondence; Rust slice::sort_by_cached_key as a stable sort by a totally ordered key; evmap; the theorem C07_listing_resume assumes the origin has the smaller id (checked by the oracle on every implementation table).',
+ },
 }
